@@ -138,6 +138,144 @@ def check_tmp_twins(rep, mod):
         raise AnalysisBroken('R-TMP-TWINS: no condition naming a state together with its TMP twin was found')
 
 
+def check_hist_keep(rep, mod):
+    """How much already-compressed input isal_deflate keeps for the next call is decided by get_hist_size().  A later call may match new data against everything
+    inside the window as long as has_hist says there is history, so less than the window (min(what was seen, IGZIP_HIST_SIZE)) may be kept only when the history has
+    really been invalidated (has_hist == IGZIP_NO_HIST, which sync_flush sets when the FULL_FLUSH marker is written) or no input can follow (end_of_stream).  A flush
+    REQUEST (stream->flush) is not such a fact: the caller may refill the input or change the mode before the flush has happened."""
+    R = rep.rule('R-HIST-KEEP', 'get_hist_size (the amount of consumed input isal_deflate keeps in state->buffer for later matches): (a) every constant below IGZIP_HIST_SIZE that can reach the return value is selected only '
+                 'on paths through a branch that established end_of_stream != 0 or has_hist == IGZIP_NO_HIST (with those branch edges removed the selecting block is unreachable); (b) no branch of the function depends '
+                 'on stream->flush - a requested flush can be superseded by more input or a changed mode before it happens, only a completed one (has_hist) removes the need for history; (c) isal_deflate copies exactly '
+                 'that many bytes ending at next_in into state->buffer', floor=3, unit='obligations (constant leaves, branches, copy site)')
+    f = mod.funcs.get('get_hist_size')
+    g = mod.funcs.get('isal_deflate')
+    if f is None or g is None:
+        raise AnalysisBroken('R-HIST-KEEP: get_hist_size / isal_deflate not found in the IR')
+    zo = c19.field_offsets('struct isal_zstream', ['flush', 'end_of_stream', 'internal_state.has_hist', 'internal_state.buffer'])
+    K, drop = mirror.c_values('default', ['igzip_lib.h'], [('HIST', 'IGZIP_HIST_SIZE'), ('NOHIST', 'IGZIP_NO_HIST')], 'c07_hist')
+    if drop:
+        raise AnalysisBroken('R-HIST-KEEP: IGZIP_HIST_SIZE / IGZIP_NO_HIST not found')
+    P = irrules.prov(mod, f)
+    sidx = [n for n, (t, _) in enumerate(f.params) if 'struct.isal_zstream*' in t]
+    if not sidx:
+        raise AnalysisBroken('R-HIST-KEEP: get_hist_size has no stream parameter')
+
+    def field_of(v):
+        """offset in isal_zstream of the field a value is loaded from (through casts), or None"""
+        d = f.defs.get(irrules._strip(f, v))
+        if d is None or d.op != 'load':
+            return None
+        at = P.atoms(d.ops[0])
+        if len(at) == 1:
+            a = next(iter(at))
+            if a[0] == 'param' and a[1] == sidx[0]:
+                return a[2]
+        return None
+    # justifying edges
+    just = set()
+    nbr = 0
+    for b, t, c in irrules.cond_branches(mod, f):
+        nbr += 1
+        R.instance()
+        dep = P.deps(t.extra['cond'])
+        R.check(('mem', ('param', sidx[0], zo['flush'])) not in dep, mod.where(f, t), 'get_hist_size: this branch depends on stream->flush: how much history is kept follows the REQUESTED flush mode, but a requested '
+                'full flush only happens once the pending block is written - if the caller refills the input or changes the mode first, has_hist stays set and new data is matched against history that was not kept '
+                '(reads in front of state->buffer, stream that does not decode to the input)', key='R-HIST-KEEP|flush|%s' % b, sample='branch in %s does not depend on stream->flush' % b)
+        if c is None or c.op != 'icmp' or not re.match(r'^\d+$', c.ops[1]):
+            continue
+        fo = field_of(c.ops[0])
+        tt, tf = t.extra['targets']
+        k, pred = int(c.ops[1]), c.extra['pred']
+        if fo == zo['end_of_stream'] and k == 0 and pred in ('ne', 'eq'):
+            just.add((b, tt if pred == 'ne' else tf))
+        if fo == zo['internal_state.has_hist'] and k == K['NOHIST'] and pred in ('ne', 'eq'):
+            just.add((b, tt if pred == 'eq' else tf))
+    if nbr < 4:
+        raise AnalysisBroken('R-HIST-KEEP: get_hist_size has only %d conditional branches' % nbr)
+    # constant leaves of the return value
+    rets = [i for i in f.all_insns() if i.op == 'ret']
+    leaves = []
+
+    def walk(v, sel, seen):
+        if re.match(r'^-?\d+$', v):
+            leaves.append((int(v), sel))
+            return
+        d = f.defs.get(v)
+        if d is None or (v, sel) in seen:
+            return
+        seen.add((v, sel))
+        if d.op == 'phi':
+            for x, pb in d.extra['incoming']:
+                walk(x, pb, seen)
+        elif d.op == 'select':
+            walk(d.ops[1], d.block, seen)
+            walk(d.ops[2], d.block, seen)
+    for r in rets:
+        if r.ops:
+            walk(r.ops[-1].split()[-1], r.block, set())
+    if not leaves:
+        raise AnalysisBroken('R-HIST-KEEP: no constant reaches the return value of get_hist_size (the window cap IGZIP_HIST_SIZE was expected)')
+    for k, blk in leaves:
+        R.instance()
+        if k >= K['HIST']:
+            R.ok(1, sample='constant %d (window cap) selected in %s' % (k, blk))
+            continue
+        # reachable from entry without crossing a justifying edge?
+        seen, work = set(), [f.entry()]
+        while work:
+            b = work.pop()
+            if b in seen:
+                continue
+            seen.add(b)
+            for s_ in f.blocks[b].succs:
+                if (b, s_) not in just:
+                    work.append(s_)
+        ins = f.blocks[blk].insns[-1]
+        R.check(blk not in seen, mod.where(f, ins), 'get_hist_size can return %d (less than the window) from block %s on a path that established neither end_of_stream nor has_hist == IGZIP_NO_HIST: the next call may still '
+                'match against history that is not kept' % (k, blk), key='R-HIST-KEEP|const|%d|%s' % (k, blk), sample='constant %d selected in %s only behind end_of_stream != 0 / has_hist == IGZIP_NO_HIST' % (k, blk))
+    # (c) the copy site in isal_deflate: memmove(state->buffer, next_in - h, h) with h a result of get_hist_size
+    Pg = irrules.prov(mod, g)
+    gi = [n for n, (t, _) in enumerate(g.params) if 'struct.isal_zstream*' in t][0]
+    sites = 0
+    for i in g.all_insns():
+        if i.op != 'call' or not re.match(r'^(llvm\.)?mem(move|cpy)', i.callee or ''):
+            continue
+        if Pg.atoms(i.ops[0]) != {('param', gi, zo['internal_state.buffer'])}:
+            continue
+        ln = i.ops[2]
+        d = g.defs.get(irrules._strip(g, i.ops[1]))
+        if d is None or d.op != 'getelementptr':
+            continue
+        base, hops = g.defs.get(irrules._strip(g, d.ops[0])), 1
+        while base is not None and base.op == 'getelementptr' and hops < 6:
+            base, hops = g.defs.get(irrules._strip(g, base.ops[0])), hops + 1
+        if base is None or base.op != 'load' or Pg.atoms(base.ops[0]) != {('param', gi, 0)}:
+            continue              # not a copy out of the caller's input (e.g. the shift-down of the buffer itself)
+        sites += 1
+        R.instance()
+
+        def direct(v, seen):
+            v = irrules._strip(g, v)
+            d_ = g.defs.get(v)
+            if d_ is None or v in seen:
+                return d_ is not None
+            seen.add(v)
+            if d_.op == 'call':
+                return d_.callee == 'get_hist_size'
+            if d_.op == 'phi':
+                return all(direct(x, seen) for x, _ in d_.extra['incoming'])
+            return False
+        idx = d.extra.get('idx', [])
+        iv = idx[-1].split()[-1] if idx else None
+        neg = g.defs.get(iv) if iv else None
+        lnroot = irrules._strip(g, ln)
+        ok = hops == 1 and direct(ln, set()) and neg is not None and neg.op == 'sub' and neg.ops[0] == '0' and irrules._strip(g, neg.ops[1]) == lnroot
+        R.check(ok, mod.where(g, i), 'isal_deflate: the history copied into state->buffer is not the hist_size bytes that end at next_in', key='R-HIST-KEEP|copy',
+                sample='memmove(state->buffer, next_in - hist_size, hist_size) with hist_size = get_hist_size(...)')
+    if sites == 0:
+        raise AnalysisBroken('R-HIST-KEEP: no copy from the caller\'s input to the start of state->buffer found in isal_deflate')
+
+
 def main(tier):
     rep = Report('C07', tier, level='other')
     rep.undecided = UNDECIDED
@@ -163,6 +301,7 @@ def main(tier):
     rep.attempt(c19.check_resume, rep, mod)
     rep.attempt(check_state_handled, rep, mod)
     rep.attempt(check_tmp_twins, rep, mod)
+    rep.attempt(check_hist_keep, rep, mod)
     import c05
     rep.attempt(c05.check_c_loads, rep)      # chunks are separate memory regions: nothing behind a chunk may be read (M-ENDDIST-C, M-COMPARE-BOUND)
     return rep.finish()
